@@ -44,11 +44,12 @@ def latlon_to_xy(lat, lon, ref_lat, ref_lon):
         Easting and northing in meters relative to (ref_lat, ref_lon).
     """
     lat_r = math.radians(lat)
-    lon_r = math.radians(lon)
     ref_lat_r = math.radians(ref_lat)
-    ref_lon_r = math.radians(ref_lon)
+    # longitude difference on the circle (179.999 -> -179.999 is 0.002 deg
+    # eastward, not 359.998 deg westward)
+    dlon_r = math.radians(math.remainder(lon - ref_lon, 360.0))
 
-    x = _EARTH_RADIUS * (lon_r - ref_lon_r) * math.cos(ref_lat_r)
+    x = _EARTH_RADIUS * dlon_r * math.cos(ref_lat_r)
     y = _EARTH_RADIUS * (lat_r - ref_lat_r)
     return x, y
 
